@@ -135,7 +135,16 @@ def run(case: dict, ctx) -> dict:
         if not po.ok:
             res["viol"].append({"what": f"open failed on conformant parent: {po.brief()}", "mech": MECH, "detail": {"tb": po.tb}})
             return res
-        o = call(VDI, fh, parent=po.value)
+        if rng.random() < 0.4:
+            # the chain is linked after opening (a caller that resolves UUIDParent once all images are open): the public
+            # `parent` attribute decides at every read. (Nothing is read before the link is made: the stream layer may keep
+            # the block it read last.)
+            o = call(VDI, fh)
+            if o.ok:
+                o.value.parent = po.value
+                res["cnt"]["parent_linked_after_open"] = 1
+        else:
+            o = call(VDI, fh, parent=po.value)
         res["cnt"]["parent_cases"] = 1
         res["cnt"]["zero_blocks_over_parent_data"] = meta["map"].count(-2)
     else:
